@@ -3,13 +3,16 @@ import HyperModel.Model.Builder
 /-!
 Driver for C02. Line protocol:
 
-* `build <nkeys> <prices> <max> <target> <txsSizeCap> <parentHeight> <minEmptyBlockGap>`  → `ok`
+* `build <nkeys> <minprices> <max> <target> <txsSizeCap> <parentHeight> <minEmptyBlockGap> <parentFeeState> <prices>`  → `ok`
+     (`prices`: what `ComputeNext` yields for this parent — a parameter of the model, C13)
      (the parent is 5000 ms older than the build on both sides)
 * `parent <k>=<v> ...`                                                   → `ok`
 * `mtx <id> <sponsor> <pre> <units> <keys> <prog> <size> <dup 0|1>`      mempool entry, stream order → `ok`
 * `run 1 <id,id,...|->`   build with one core; the list is the observed processing order
      → `ok txs=.. post=.. h=.. res=.. consumed=.. restored=..` | `builderr`
-* `par <cores>`           oracle-only run of the implementation → `done`
+* `par <cores> <id,id,...|-|!>`  multi-core build; the list is the *emitted* block (`!` = build error):
+     the model verifies that block (`verify`: replay check, execSeq, metadata)
+     → `ok post=.. h=.. res=.. prices=.. consumed=..` | `verify-fails` | `builderr`
 -/
 namespace Driver.C02
 open HyperModel.BlockExec HyperModel.Builder Driver.C01
@@ -23,7 +26,7 @@ structure St where
   parentHeight : Nat := 0
   minEmptyGap : Nat := 750
   parent : List (Nat × Nat) := []
-  mtxs : List MTx := []
+  mtxs : List (Tx × Bool) := []
 
 def hkK : Nat := 1000
 def tkK : Nat := 1001
@@ -34,27 +37,29 @@ def ctxOf (s : St) : BCtx :=
       else if k = fkK then some 0 else s.parent.lookup k
     prices := s.prices, maxUnits := s.maxUnits, targetUnits := s.target, targetTxsSize := s.cap,
     minBlockGap := 100, minEmptyBlockGap := s.minEmptyGap, parentHeight := s.parentHeight, parentTs := 1000,
-    parentFee := 0, now := 6000, hk := hkK, tk := tkK, fk := fkK, feeEnc := fun _ _ _ => 1 }
+    parentFee := 0, now := 6000, hk := hkK, tk := tkK, fk := fkK, feeEnc := fun _ _ _ => 1,
+    seen := fun id => s.mtxs.any (fun m => m.2 && m.1.id == id) }
 
-def chunksAux (n : Nat) : Nat → List MTx → List (List MTx)
+def chunksAux (n : Nat) : Nat → List Tx → List (List Tx)
   | 0, l => if l.isEmpty then [] else [l]
   | fuel + 1, l =>
     if l.length ≤ n then (if l.isEmpty then [] else [l])
     else l.take n :: chunksAux n fuel (l.drop n)
 
 /-- `mempool.Stream(streamBatch)` until empty -/
-def chunks (n : Nat) (l : List MTx) : List (List MTx) := chunksAux n l.length l
+def chunks (n : Nat) (l : List Tx) : List (List Tx) := chunksAux n l.length l
 
 /-- the executor's schedule: the observed order first, everything unobserved after it -/
-def schedOf (order : List Nat) (enq : List Tx) : List Tx :=
-  order.filterMap (fun id => enq.find? (·.id == id)) ++ enq.filter (fun t => !order.contains t.id)
+def schedOf (order : List Nat) (enq : List Tx) : List (Tx × Bool) :=
+  (order.filterMap (fun id => enq.find? (·.id == id))).map (·, false) ++
+    (enq.filter (fun t => !order.contains t.id)).map (·, true)
 
 def showIds (l : List Nat) : String :=
   if l.isEmpty then "-" else ",".intercalate (l.map toString)
 
 def step (s : St) (ws : List String) : St × String :=
   match ws with
-  | ["build", n, p, m, t, cap, ph, mg] =>
+  | ["build", n, _minp, m, t, cap, ph, mg, _pf, p] =>
     match n.toNat?, parseNats "," p, parseNats "," m, parseNats "," t, cap.toNat?, ph.toNat?, mg.toNat? with
     | some n, some p, some m, some t, some cap, some ph, some mg =>
       if mg < 100 || (mg > 3000 && mg < 30000) then (s, "bad-op") else
@@ -67,7 +72,7 @@ def step (s : St) (ws : List String) : St × String :=
   | ["mtx", id, sp, pre, units, keys, prog, size, dup] =>
     match parseTx id sp pre units keys prog size with
     | some t =>
-      if dup == "0" || dup == "1" then ({ s with mtxs := s.mtxs ++ [{ tx := t, dup := dup == "1" }] }, "ok")
+      if dup == "0" || dup == "1" then ({ s with mtxs := s.mtxs ++ [(t, dup == "1")] }, "ok")
       else (s, "bad-op")
     | none => (s, "bad-op")
   | ["run", "1", order] =>
@@ -75,16 +80,30 @@ def step (s : St) (ws : List String) : St × String :=
     | none => (s, "bad-op")
     | some order =>
       let c := ctxOf s
-      match build c (schedOf order) (chunks 256 s.mtxs) with
+      match build c (schedOf order) (chunks 256 (s.mtxs.map (·.1))) with
       | none => (s, "builderr")
       | some b =>
         let post := applyDiff c.parent b.diff
         let rest := ((b.restorable.filter (·.preOk)).map (·.id)).mergeSort (· ≤ ·)
-        (s, s!"ok txs={showIds (b.txs.map (·.id))} post={showPost s.nkeys post} h={showOpt (post hkK)} res={showResults b.results} consumed={showDims b.consumed} restored={showIds rest}")
-  | ["par", cores] =>
+        (s, s!"ok txs={showIds (b.txs.map (·.id))} post={showPost s.nkeys post} h={showOpt (post hkK)} res={showResults b.results} prices={showDims c.prices} consumed={showDims b.consumed} restored={showIds rest}")
+  | ["par", cores, emitted] =>
     match cores.toNat? with
-    | some _ => (s, "done")
     | none => (s, "bad-op")
+    | some _ =>
+      if emitted == "!" then (s, "builderr") else
+      match parseNats "," emitted with
+      | none => (s, "bad-op")
+      | some ids =>
+        match allSome (ids.map (fun id => (s.mtxs.find? (·.1.id == id)).map (·.1))) with
+        | none => (s, "bad-op")
+        | some txs =>
+          let c := ctxOf s
+          let b : Built := { txs := txs, height := c.parentHeight + 1, ts := c.now, diff := emptyDiff,
+                             results := [], consumed := [], restorable := [] }
+          match verify c b with
+          | none => (s, "verify-fails")
+          | some v =>
+            (s, s!"ok post={showPost s.nkeys v.post} h={showOpt (v.post hkK)} res={showResults v.results} prices={showDims c.prices} consumed={showDims v.consumed}")
   | _ => (s, "bad-op")
 
 def machine : Machine := { σ := St, init := {}, step := step }
